@@ -72,6 +72,7 @@ fn main() {
             "reader" => g_reader::gen(&mut rng, thorough, &mut em),
             "tsig" => g_tsig::gen(&mut rng, thorough, &mut em),
             "writer" => g_writer::gen(&mut rng, thorough, &mut em),
+            "writerptr" => g_writer::gen_ptr(&mut rng, thorough, &mut em),
             "server" => g_server::gen(&mut rng, thorough, &mut em),
             "srvhdr" => g_srvscan::gen_hdr(&mut rng, thorough, &mut em),
             "srvzone" => g_srvscan::gen_zone_sel(&mut rng, thorough, &mut em),
